@@ -7,7 +7,7 @@ from gen import unicode_text
 from uriutil import render_uri
 
 ID = 'C10'
-MODULES = ['Httoop.Props.C10', 'Httoop.Props.C10Whole']
+MODULES = ['Httoop.Props.C10', 'Httoop.Props.C10Whole', 'Httoop.Props.C10Host']
 THEOREMS = [
 	'Httoop.Uri.uri_cuts',
 	'Httoop.Uri.compose_assemble',
@@ -15,6 +15,10 @@ THEOREMS = [
 	'Httoop.Uri.quote_clean',
 	'Httoop.Uri.userinfo_roundtrip',
 	'Httoop.Uri.hostport_roundtrip',
+	'Httoop.Uri.host_no_leak',
+	'Httoop.Uri.unquoteHost_quote',
+	'Httoop.Uri.host_delimiters_encoded',
+	'Httoop.Uri.c10_host_witness',
 	'Httoop.Uri.path_roundtrip',
 	'Httoop.Uri.integer_natToDec',
 	'Httoop.Uri.quote_clean_of_clean',
@@ -29,11 +33,13 @@ TRUSTED = [
 	'text = UTF-8 octets; CPython UTF-8 codec inverse on valid text',
 ]
 ASSUMPTIONS = ['guards of uri_roundtrip_partial: F1 (no code point < U+0010 in escaped positions), password only with a user name, host in canonical lower case, port None or 1..65535, path empty or starting with "/", query in QueryString normal form']
-RULE = ('component tuples: known/unknown schemes and relative references without scheme and authority, user/password over Unicode incl. ":@/?#%", hosts of every syntactic kind (reg-name, IPv4, bracketed IPv6, IDN), ports None/default/other, 0-5 path segments and 0-4 query pairs over Unicode, fragment; '
+RULE = ('component tuples: known/unknown schemes and relative references without scheme and authority, user/password over Unicode incl. ":@/?#%", hosts of every syntactic kind (reg-name, also holding delimiters, blanks and percent signs; IPv4, bracketed IPv6, IDN), ports None/default/other, 0-5 path segments and 0-4 query pairs over Unicode, fragment; '
 	'non-trivial = all eight components come back and the second serialisation is byte-identical; distinct by composed text')
 
 SCHEMES = [u'http', u'https', u'ftp', u'foo', u'x-y.z+1', u'svn+ssh']
-HOSTS = [u'3com.example', u'163.com', u'0mq.q', u'1a', u'9z', u'example.com', u'a', u'h-1.x', u'sub.dom.example', u'127.0.0.1', u'10.0.0.255', u'[::1]', u'[2001:db8::1]', u'[fe80::1:2:3:4]', u'bücher.example', u'www.bücher.example', u'mail.example.рф', u'a_b', u"x!$&'()*+,;=y"]
+HOSTS = [u'3com.example', u'163.com', u'0mq.q', u'1a', u'9z', u'example.com', u'a', u'h-1.x', u'sub.dom.example', u'127.0.0.1', u'10.0.0.255', u'[::1]', u'[2001:db8::1]', u'[fe80::1:2:3:4]', u'bücher.example', u'www.bücher.example', u'mail.example.рф', u'a_b', u"x!$&'()*+,;=y",
+	# registered names that hold what is a delimiter elsewhere (a parser decodes a%2Fb to this): they must be written escaped
+	u'a/b', u'a?b', u'a#b', u'a@b', u'a:b', u'a b', u'a%b', u'a%2fb', u'a[b]', u'a\\b', u'u:p@h', u'h/x/y', u'a|b', u'a^b`{}']
 SPECIAL = u':@/?#%[]&=+ ;'
 
 
